@@ -31,6 +31,7 @@ pub fn stub_format(_args: core::fmt::Arguments<'_>) -> String {
 }
 
 pub mod c01;
+pub mod c02;
 pub mod c03;
 pub mod c04;
 pub mod c05;
@@ -51,6 +52,7 @@ pub mod c19;
 pub fn registry() -> Vec<(&'static str, fn(&mut BytesSrc))> {
     let mut v: Vec<(&'static str, fn(&mut BytesSrc))> = Vec::new();
     c01::register(&mut v);
+    c02::register(&mut v);
     c03::register(&mut v);
     c04::register(&mut v);
     c05::register(&mut v);
